@@ -182,6 +182,9 @@ func (self *StreamDecoder) setErr(err error) {
 	self.err = err
 	mem := self.buf[:0]
 	self.buf = nil
+	/* the cursor must not outlive the buffer it indexes, see Buffered() */
+	self.scanned += int64(self.scanp)
+	self.scanp = 0
 	freeBytes(mem)
 }
 
